@@ -1,12 +1,12 @@
 CFG = dict(
      claimed=True,
      race=True,
-     rule="(a) case = one drawn concurrent program (2..4 goroutines x 1..5 operations, 1..3 keys, drawn yields/spins) executed 12 (quick) / 20 "
+     rule="(a) case = one drawn concurrent program (2..4 goroutines x 1..5 operations, 1..3 keys, drawn yields/spins) executed 60 (quick) / 100 "
           "(thorough) times with real goroutines; every recorded history is checked by porcupine against a sequential model. Non-trivial: at least "
           "one of the program's histories had two operations of different goroutines on the same key/counter (or one whole-structure operation) "
           "overlapping in real time according to the invocation/response stamps. Distinct by the full program encoding. Classes count histories and "
           "overlapping histories. (b) case = operation sequence (<= 60) applied to ring.Ring and container/ring; (c) case = (initial, bsize, operation "
-          "sequence) on ring.Buffered vs a slice queue; exhaustive section: every sequence of length 8 (thorough 10) over {AppendBack, RemoveFront, "
+          "sequence) on ring.Buffered vs a slice queue; exhaustive section: every sequence of length 8 (thorough 9) over {AppendBack, RemoveFront, "
           "Front, Len, Range, Range stopping after 1} for every (initial, bsize) in -1..5 x -1..5. Non-trivial for (b,c): the sequence made the ring grow "
           "and shrink (for Buffered computed from the documented growth policy; the capacity is not observable).",
      assumptions=["Go runtime, sync/atomic (sequentially consistent stamps), the race detector, rapid v1.3.0 and porcupine v1.3.0 are correct",
@@ -16,9 +16,12 @@ CFG = dict(
      technique="property-based testing (rapid): generated concurrent programs with recorded histories decided by a linearizability checker "
                "(porcupine) under the race detector; differential testing against container/ring; model-based testing against a slice queue "
                "plus exhaustive small-scope enumeration",
-     level_text="Generated-input search: every case runs the real containers. Part (a) samples schedules (12-20 runs of each program on real "
+     level_text="Generated-input search: every case runs the real containers. Part (a) samples schedules (60-100 runs of each program on real "
                 "parallel goroutines, built with -race: a data race report is a violation) and asks porcupine for a sequential witness of every "
-                "recorded history. Parts (b,c) compare every result with container/ring / a slice queue; (c) is exhaustive up to length 8 (10) for all "
+                "recorded history. Parts (b,c) compare every result with container/ring / a slice queue; (c) is exhaustive up to length 8 (9) for all "
                 "49 size pairs. No absence claim; interleavings that the scheduler never produced were not examined.",
      level_note="Trusts the Go runtime, the race detector, rapid, porcupine and the harness' sequential models (self-checked on hand-written histories).",
-     timeout_quick=600, timeout_thorough=2400)
+     # part (a) needs the program's goroutines on processors at the same time: 4 processes x (<= 4 goroutines) fit the
+     # 16 processors, 16 processes would oversubscribe them fourfold and mostly produce sequential histories
+     shards_thorough=4,
+     timeout_quick=900, timeout_thorough=3000)
